@@ -134,7 +134,7 @@ def extract_obs(mname, spec, closure, timeout, nchanges, sparse=False):
 def build(tier, seed):
     thorough = tier == 'thorough'
     obs = []
-    specs = dict(MODELS)
+    specs = {k: v for k, v in MODELS.items() if not (v.get('typed') or v.get('absent'))}
     for mname, spec in specs.items():
         obs += extract_obs(mname, spec, CLOSURES[mname], 900 if thorough else 400, 2 if thorough else 1)
     obs += extract_obs('deep', EXTRA['deep'], EXTRA['deep']['closure'], 3000 if thorough else 600, 2 if thorough else 1, sparse=not thorough)
